@@ -189,9 +189,9 @@ CHECKS = {
         "namespace": "Vanguard.C04",
         "streams": ["codes", "percent", "e2e"],
         "partial": "the relay of an RPC error through the response path (first reported end = what the client reads, final; sources: backend trailers, "
-                   "response head, end-of-stream message, the transcoder itself) is proved for gRPC, gRPC-Web and Connect-streaming clients in every "
-                   "state and for unary Connect clients under the hypothesis that the head has not been sent yet (their response is buffered; not "
-                   "proved as a whole-run invariant); REST clients and the encodings of details (JSON, base64, protobuf Any) are outside the theorems",
+                   "response head, end-of-stream message, the transcoder itself) is proved for gRPC, gRPC-Web, Connect-streaming and unary Connect clients in every "
+                   "state a handler script can reach (a unary client's head is proved never to go out while the RPC is open); REST clients and the "
+                   "encodings of details (JSON, base64, protobuf Any) are outside the theorems",
         "assumptions": [
             "JSON / protobuf / base64 encodings of error details are external (round-trip assumed, exercised by e2e stream)",
         ],
